@@ -445,7 +445,7 @@ def first_diff_line(a: bytes, b: bytes) -> str:
 
 
 def diagnose_warm_cold(ctx: Ctx, lib: LibInfo, case: 'RealCase', pre: tproj.Project, force: bool, cold: tuple[str, dict[str, bytes]],
-		snapshots: dict[str, dict[str, str]]) -> tuple[str, str]:
+		snapshots: dict[str, dict[str, str]], hit: set[str]) -> tuple[str, str]:
 	"""Names the failing input class: which cache layer carries the stale content and why its key did not change."""
 	def rerun_without(pred: Any) -> tuple[str, dict[str, bytes]]:
 		p = pre.clone(ctx.tmpdir('tranp-c05-diag-'))
@@ -461,12 +461,12 @@ def diagnose_warm_cold(ctx: Ctx, lib: LibInfo, case: 'RealCase', pre: tproj.Proj
 		stale: list[str] = []
 		transitive_only = True
 		for rel in pre.cache_files():
-			if rel.startswith(f'{PKG}/') and '-symbols-' in rel and rel in snapshots:
+			# only files the warm run restored from (opened for reading) can carry stale content into the output
+			if rel.startswith(f'{PKG}/') and '-symbols-' in rel and rel in snapshots and rel in hit:
 				m = rel[len(PKG) + 1:].split('-symbols-')[0]
-				changed = {x for x in case.graph if snapshots[rel].get(x) != current[x]}
+				changed = {x for x in closure(case.graph, m) | {m} if snapshots[rel].get(x) != current[x]}
 				if not changed:
 					continue
-				# the file is used by this run only if its name is the module's current identity: it survives the run
 				stale.append(f'{m}<-{",".join(sorted(changed))}')
 				if not changed <= (closure(case.graph, m) - set(case.graph[m]) - {m}):
 					transitive_only = False
@@ -536,7 +536,7 @@ def search_warm_cold(ctx: Ctx) -> SearchResult:
 				confirm = cold_outcome(ctx, lib, pre, force, True, seeded=False)
 				if confirm != cold:
 					raise common.InfraError('C05: library-seeded cold run differs from the empty-cache cold run')
-				key, why = diagnose_warm_cold(ctx, lib, case, pre, force, cold, snapshots)
+				key, why = diagnose_warm_cold(ctx, lib, case, pre, force, cold, snapshots, {p for k, p in r.events if k == 'r'})
 				diff = diff_modules(warm[1], cold[1])
 				detail = first_diff_line(warm[1].get(diff[0], b''), cold[1].get(diff[0], b'')) if diff else f'status {warm[0]} vs {cold[0]}'
 				res.findings.append(Finding(key=key, what=f'warm output differs from cold output in {diff or "status"}: {detail}; {why}',
@@ -616,6 +616,9 @@ def search_truncation(ctx: Ctx) -> SearchResult:
 			case.apply(['edit', m, str(rng.randrange(N_VARIANTS))])
 			case.apply(['run', '0'])
 		cold = cold_outcome(ctx, lib, case.proj, True, True, seeded=True)
+		und = case.proj.clone(ctx.tmpdir('tranp-c05-und-'))
+		undamaged = outcome(und, und.run(force=True, cache_enabled=True))		# differs from `cold` only through stale entries (warm-cold search)
+		shutil.rmtree(und.root, ignore_errors=True)
 		files = case.proj.cache_files()
 		sizes = {rel: os.path.getsize(os.path.join(case.proj.cache_dir, rel)) for rel in files}
 		targets: list[tuple[str, int]] = []
@@ -641,8 +644,8 @@ def search_truncation(ctx: Ctx) -> SearchResult:
 			tag = 'fails' if got[0] != 'ok' else 'same-output'
 			hist[f'run:{layer}:{tag}'] = hist.get(f'run:{layer}:{tag}', 0) + 1
 			seen.add(f'{shape}:{rel}:{k}')
-			if got[0] == 'ok' and got != cold:
-				res.findings.append(Finding(key=f'truncated-file-accepted:{layer}', what=f'run over {rel} cut at byte {k}/{sizes[rel]} succeeds with output different from the cold run',
+			if got[0] == 'ok' and got != cold and got != undamaged:
+				res.findings.append(Finding(key=f'truncated-file-accepted:{layer}', what=f'run over {rel} cut at byte {k}/{sizes[rel]} succeeds with output different from the cold run and from the run over the undamaged cache',
 					replay={'search': 'truncation-run', 'shape': shape, 'variants': case.variants, 'file': rel, 'k': k}))
 				break
 		if len(res.samples) < 2:
@@ -696,12 +699,23 @@ def search_disabled(ctx: Ctx) -> SearchResult:
 				res.findings.append(Finding(key=key, what=f'caching disabled, yet {len(touched)} cache file access(es), e.g. {touched[0]}{crash}',
 					replay={'search': 'disabled', 'shape': shape, 'variants': variants, 'ops': done}))
 			else:
-				cold = cold_outcome(ctx, lib, pre, op[1] == '1', False, seeded=False)
-				if outcome(case.proj, r) != cold:
+				coldp = pre.clone(ctx.tmpdir('tranp-c05-cold-'))
+				coldp.clear_cache()
+				cr = coldp.run(force=op[1] == '1', cache_enabled=False)
+				cold = outcome(coldp, cr)
+				shutil.rmtree(coldp.root, ignore_errors=True)
+				ctouched = [(k, p) for k, p in cr.events if k in ('r', 'w', 'd')]
+				if ctouched:
+					only_store = all(k in ('w', 'd') and '-symbols-' in p for k, p in ctouched)
+					key = 'store-when-disabled' if only_store else 'cache-access-when-disabled:' + ','.join(sorted({f'{k}:{layer_of(p)}' for k, p in ctouched}))
+					crash = f'; the run fails with {cr.message[:120]}' if not cr.ok else ''
+					res.findings.append(Finding(key=key, what=f'caching disabled and empty cache directory, yet {len(ctouched)} cache file access(es), e.g. {ctouched[0]}{crash}',
+						replay={'search': 'disabled', 'shape': shape, 'variants': variants, 'ops': [*done[:-1], ['clear'], done[-1]]}))
+				elif outcome(case.proj, r) != cold:
 					res.findings.append(Finding(key='disabled-output-differs', what='output with caching disabled differs between a populated and an empty cache directory',
 						replay={'search': 'disabled', 'shape': shape, 'variants': variants, 'ops': done}))
 			shutil.rmtree(pre.root, ignore_errors=True)
-			if res.findings and res.findings[-1].replay.get('ops') is done:
+			if res.findings and res.findings[-1].replay.get('shape') == shape and res.findings[-1].replay.get('variants') == variants:
 				break
 		shutil.rmtree(case.proj.root, ignore_errors=True)
 	res.distinct = len(seen)
